@@ -28,9 +28,11 @@ Main == MainTx
 NoVer == [seq |-> 0, tx |-> -1, cid |-> 0, key |-> ""]
 
 VARIABLES seq, ncid, reg, regOrder, txs, all, crec, disk, frec, nextTx, ended, stale, steps, quiet,
+          rdr,          \* the reader somebody holds open (GetReader returned, not yet read to the end), or NoRdr
           g, devFired, hist
 
-mech  == <<seq, ncid, reg, regOrder, txs, all, crec, disk, frec, nextTx, ended, stale, steps, quiet>>
+mech  == <<seq, ncid, reg, regOrder, txs, all, crec, disk, frec, nextTx, ended, stale, steps, quiet, rdr>>
+NoRdr == [t |-> -2, k |-> "", v |-> 0, p |-> 0]
 ghost == <<g, devFired>>
 vars  == <<mech, ghost, hist>>
 
@@ -53,7 +55,7 @@ Init ==
   /\ txs = TLCEval(Main :> EmptyStore)
   /\ all = EmptyStore
   /\ crec = {} /\ disk = {} /\ frec = EmptyF
-  /\ nextTx = 1 /\ ended = {} /\ stale = {} /\ steps = 0 /\ quiet = TRUE
+  /\ nextTx = 1 /\ ended = {} /\ stale = {} /\ steps = 0 /\ quiet = TRUE /\ rdr = NoRdr
   /\ g = GInit /\ devFired = {}
   /\ hist = <<>>
 
@@ -234,6 +236,7 @@ Winner(k) == IF MainRecs(k) = {} THEN 0
              ELSE CHOOSE c \in MainRecs(k) : \A d \in MainRecs(k) : frec[d].seq <= frec[c].seq
 Reopen ==
   /\ "reopen" \in Ops
+  /\ rdr = NoRdr            \* a graceful stop of the server waits for open streams
   /\ LET winners == {Winner(k) : k \in Keys} \ {0}
          losers == DOMAIN frec \ winners
          loserVers == {[seq |-> frec[c].seq, tx |-> frec[c].tx, cid |-> c, key |-> frec[c].key] : c \in losers}
@@ -284,23 +287,44 @@ LateRollback(t) ==
   /\ "late" \in Ops /\ t \in LateHandles /\ Ident
   /\ Log("lrollback", [t |-> t], "ok", "ok")
 
+(* ---------- a reader held open across other operations ---------- *)
+(* GetReader opens the content file (inline) or a stream whose server side holds it open      *)
+(* (external); unlinking the file later -- overwrite + collector, end of the transaction,     *)
+(* cleanup -- does not take the content away from whoever already has it open.  The promise:   *)
+(* a read that has begun returns the content it began with, complete.                          *)
+ROpen(t, k) ==
+  /\ "reader" \in Ops
+  /\ rdr = NoRdr /\ MechRead(t, k) # 0 /\ GRead(g, t, k) # 0
+  /\ rdr' = [t |-> t, k |-> k, v |-> MechRead(t, k), p |-> GRead(g, t, k)]
+  /\ Ident
+  /\ Log("ropen", [t |-> t, k |-> k, c |-> GRead(g, t, k)], "ok", "ok")
+RFinish ==
+  /\ "reader" \in Ops
+  /\ rdr # NoRdr
+  /\ rdr' = NoRdr
+  /\ Ident
+  /\ Log("rfinish", [t |-> rdr.t, k |-> rdr.k, c |-> rdr.p], "ok", "ok")
+
 Step(A) == steps < MaxSteps /\ steps' = steps + 1 /\ A
+Keep(A) == Step(A) /\ UNCHANGED rdr
 
 Next ==
-  \/ \E t \in Writers, k \in Keys : Step(Set(t, k))
-  \/ \E t \in Writers, k \in Keys : Step(Del(t, k))
-  \/ \E t \in Writers : Step(EmptySet(t))
-  \/ \E l \in Levels : Step(Begin(l))
-  \/ \E t \in Open : Step(Commit(t))
-  \/ \E t \in Open : Step(Rollback(t))
-  \/ Step(GC)
-  \/ Step(Reopen)
-  \/ \E t \in LateHandles, k \in Keys : Step(LateWrite(t, k, TRUE))
-  \/ \E t \in LateHandles, k \in Keys : Step(LateWrite(t, k, FALSE))
-  \/ \E t \in LateHandles, k \in Keys : Step(LateRead(t, k))
-  \/ \E t \in LateHandles : Step(LateKeys(t))
-  \/ \E t \in LateHandles : Step(LateCommit(t))
-  \/ \E t \in LateHandles : Step(LateRollback(t))
+  \/ \E t \in Writers, k \in Keys : Keep(Set(t, k))
+  \/ \E t \in Writers, k \in Keys : Keep(Del(t, k))
+  \/ \E t \in Writers : Keep(EmptySet(t))
+  \/ \E l \in Levels : Keep(Begin(l))
+  \/ \E t \in Open : Keep(Commit(t))
+  \/ \E t \in Open : Keep(Rollback(t))
+  \/ Keep(GC)
+  \/ Keep(Reopen)
+  \/ \E t \in LateHandles, k \in Keys : Keep(LateWrite(t, k, TRUE))
+  \/ \E t \in LateHandles, k \in Keys : Keep(LateWrite(t, k, FALSE))
+  \/ \E t \in LateHandles, k \in Keys : Keep(LateRead(t, k))
+  \/ \E t \in LateHandles : Keep(LateKeys(t))
+  \/ \E t \in LateHandles : Keep(LateCommit(t))
+  \/ \E t \in LateHandles : Keep(LateRollback(t))
+  \/ \E t \in Readers, k \in Keys : Step(ROpen(t, k))
+  \/ Step(RFinish)
 
 Spec == Init /\ [][Next]_vars
 
@@ -381,6 +405,7 @@ VersOfStore(st) == UNION {{st[k][i] : i \in 1..Len(st[k])} : k \in Keys}
 LiveSeqs == UNION {{v.seq : v \in VersOfStore(txs[t])} : t \in DOMAIN txs}
             \cup {reg[t].bseq : t \in DOMAIN reg} \cup {frec[c].seq : c \in DOMAIN frec}
 LiveCids == UNION {{v.cid : v \in VersOfStore(txs[t])} : t \in DOMAIN txs} \cup crec \cup disk \cup DOMAIN frec
+            \cup {rdr.v, rdr.p}
 LiveTimes == {g.cm[k].time : k \in Keys}
              \cup UNION {{g.tx[t].own[k].time : k \in Keys} \cup {g.tx[t].snap[k].time : k \in Keys} : t \in DOMAIN g.tx}
              \cup {g.tx[t].begin : t \in DOMAIN g.tx}
@@ -396,6 +421,7 @@ RankView == <<
   {RC(c) : c \in crec}, {RC(c) : c \in disk},
   {<<RC(c), RS(frec[c].seq), frec[c].tx, frec[c].key>> : c \in DOMAIN frec},
   nextTx, ended, stale, steps, quiet, devFired,
+  [t |-> rdr.t, k |-> rdr.k, v |-> RC(rdr.v), p |-> RC(rdr.p)],
   [k \in Keys |-> NG(g.cm[k])],
   [t \in DOMAIN g.tx |-> [level |-> g.tx[t].level, begin |-> RT(g.tx[t].begin),
                           own |-> [k \in Keys |-> NG(g.tx[t].own[k])],
